@@ -182,6 +182,11 @@ def handle (st : DState) (kw : String) (toks : List Nat) : DState × String :=
         match e with
         | .needsVersion n v => [0, n, v + 1]
         | .unused n v => [1, n, optKey v])))
+  | "samemeta" =>
+    -- consider_as_same (Vet/Model/Registry.lean `considerSame`): registry desc, repo; local desc, repo
+    match run (pair (pair optNat optNat) (pair optNat optNat)) toks with
+    | none => (st, "bad-case")
+    | some ((a, b), (c, d)) => (st, "ok " ++ show_ [b2n (Reg.considerSame ⟨a, b⟩ ⟨c, d⟩)])
   | "auditas" =>
     -- check_audit_as_crates_io with network (Vet/Model/Registry.lean `checkAuditAs`)
     match run (pair (list (pair nat optNat)) (list firstParty)) toks with
